@@ -46,6 +46,14 @@ type Take struct {
 	Thread string
 }
 
+// Read is one frame handed to the program by ZeroCopyReadPacketData.
+type Read struct {
+	T      int64 // virtual time at which the read returned
+	Thread string
+	Sock   int
+	Data   []byte
+}
+
 // World is everything outside the process, for one execution.
 type World struct {
 	Ifaces   []net.Interface
@@ -58,6 +66,7 @@ type World struct {
 	Opened   []string
 	Socks    []*TPacket
 	Takes    []Take
+	Reads    []Read
 	Limiters int
 	// WriteErr, when set, decides the result of the n-th write (0-based)
 	WriteErr func(n int, p []byte) error
@@ -126,6 +135,7 @@ func (t *TPacket) ZeroCopyReadPacketData() ([]byte, gopacket.CaptureInfo, error)
 	switch vs.Select(false, c, r) {
 	case 1:
 		d := r.V
+		W.Reads = append(W.Reads, Read{T: vs.VNow(), Thread: vs.CurThread(), Sock: t.id, Data: append([]byte{}, d...)})
 		return d, gopacket.CaptureInfo{Timestamp: vs.Now(), CaptureLength: len(d), Length: len(d)}, nil
 	default:
 		return nil, gopacket.CaptureInfo{}, errors.New("read: use of closed file")
